@@ -657,7 +657,7 @@ def mask_unmodelled(impl, model, ops=None):
                         ra[i] = "F:fee:?"
                 a = ma.group(1) + " ".join(ra) + ma.group(3)
                 ma = re.match(r"^(h=\d+ rc=\[)(.*?)(\].*)$", a)
-        if ma and mb and ops is not None and idx < len(ops) and (" eth " in ops[idx] or "rawtd " in ops[idx]):
+        if ma and mb and ops is not None and idx < len(ops) and (" eth " in ops[idx] or "rawtd " in ops[idx] or " ethx " in ops[idx]):
             # Ethereum transactions: the receipt is outside the model (blanked); a successful one changes balances the model
             # does not follow, so the comparison of the history stops there
             ra, rb = ma.group(2).split(" "), mb.group(2).split(" ")
@@ -667,7 +667,7 @@ def mask_unmodelled(impl, model, ops=None):
                 for i, t in enumerate(txs):
                     if after_success:
                         ra[i] = rb[i] = "?"        # later transactions of the block see balances the model does not follow
-                    elif t and (t[0] == "eth" or (t[0] == "rawtd" and len(t) > 4 and t[4] == "1" and t[3] != "0")):
+                    elif t and (t[0] in ("eth", "ethx") or (t[0] == "rawtd" and len(t) > 4 and t[4] == "1" and t[3] != "0")):
                         # (an XVM transaction — raw transaction data with vm type 1 — is charged by the wasm engine's own gas
                         # count, which the model does not have)
                         # a successful one moves value, and a failed one may still have bought its gas (the EVM charges a
